@@ -12,7 +12,8 @@ From Coq Require Import List NArith ZArith Bool Permutation Sorted String.
 Import ListNotations.
 Require Import RV.Lib.PyStr RV.Model.ContentLine RV.Model.Vobj RV.Model.C14Spec RV.Model.Export RV.Model.Split.
 Require Import RV.Proofs.ExportProofs RV.Proofs.SplitProofs RV.Proofs.RegroupProofs RV.Proofs.UnfixedProofs.
-Require RV.Proofs.LinesProofs RV.Proofs.QpProofs RV.Proofs.TextProofs RV.Proofs.CleanupProofs RV.Proofs.TreeProofs RV.Proofs.C14Final.
+Require RV.Proofs.LinesProofs RV.Proofs.QpProofs RV.Proofs.TextProofs RV.Proofs.CleanupProofs RV.Proofs.TreeProofs RV.Proofs.C14Final
+        RV.Proofs.CanonProofs RV.Proofs.FixedPointProofs.
 Open Scope N_scope.
 
 (* ---------------------------------------------------------------------------------------------------------------
@@ -122,6 +123,46 @@ Theorem C14_tree_roundtrip : forall xs,
 Proof. exact TreeProofs.build_flatten. Qed.
 Print Assumptions C14_tree_roundtrip.
 
+(* vobject's ordering of children (the "sorted print"): a permutation -- nothing lost, nothing invented --, stable
+   within a name, and idempotent *)
+Theorem C14_canon_order : forall cname ch,
+  Permutation (order_children cname ch) ch /\
+  (forall k, with_key k (order_default cname ch) = with_key k ch) /\
+  order_children cname (order_children cname ch) = order_children cname ch.
+Proof.
+  intros cname ch. split; [apply CanonProofs.order_children_perm|]. split; [intros k; apply CanonProofs.order_default_stable|apply CanonProofs.order_children_idem].
+Qed.
+Print Assumptions C14_canon_order.
+Theorem C14_canon_idempotent : forall x, canon_node (canon_node x) = canon_node x.
+Proof. exact CanonProofs.canon_node_idem. Qed.
+Print Assumptions C14_canon_idempotent.
+
+(* ---------------------------------------------------------------------------------------------------------------
+   C14_fixed_point.  FULL STATEMENT (not proved; checked by the reload correspondence and the re-upload monitor):
+     Definition C14_fixed_point_full := forall t s, put_model t = Some s -> no_ws_only_lines s -> put_model s = Some s.
+   PROVED: for every object in normal form (FixedPointProofs.normal_form: well-formed lines, every value in the form its
+   codec writes, no clean-up applicable, children in vobject's order, no vCard PHOTO line) the whole upload pipeline
+   -- clean-ups, upload reader, tree building, value codecs, sanitising, ordering, folding -- returns the stored
+   text, outside the known class C14:fold-ws.  Same octets, hence same SHA-256 ETag.  What is missing for the full
+   statement: that the output of put_model is always in normal form (each stage is idempotent -- theorems above --, but
+   that no stage disturbs the normal form of another is not proved). *)
+Theorem C14_fixed_point : forall y,
+  FixedPointProofs.normal_form y ->
+  let s := print_node [] y in
+  read_cleanup s = s ->
+  Forall (fun l => mentions_qp (print_cl l) = false) (flatten y) ->
+  no_ws_only_lines s ->
+  put_model s = Some s.
+Proof. exact FixedPointProofs.put_model_fixed_point. Qed.
+Print Assumptions C14_fixed_point.
+Theorem C14_fixed_point_nonvacuous :
+  FixedPointProofs.normal_form FixedPointProofs.FixedPointExample.ex /\
+  read_cleanup (print_node [] FixedPointProofs.FixedPointExample.ex) = print_node [] FixedPointProofs.FixedPointExample.ex /\
+  Forall (fun l => mentions_qp (print_cl l) = false) (flatten FixedPointProofs.FixedPointExample.ex) /\
+  no_ws_only_lines (print_node [] FixedPointProofs.FixedPointExample.ex).
+Proof. exact FixedPointProofs.put_model_fixed_point_example. Qed.
+Print Assumptions C14_fixed_point_nonvacuous.
+
 (* ---------------------------------------------------------------------------------------------------------------
    C14_served_is_stored.  In the model the Item served by GET / REPORT / export carries the text of the cache entry
    written at upload, which is the uploaded item's own serialisation (definitional; the monitors compare the three
@@ -137,6 +178,12 @@ Theorem C14_served_after_cache_loss : forall text,
   put_model text = Some text -> C14Final.served_text (C14Final.mkStored text None) = Some text.
 Proof. exact C14Final.served_after_cache_loss. Qed.
 Print Assumptions C14_served_after_cache_loss.
+Theorem C14_served_after_cache_loss_normal_form : forall y,
+  FixedPointProofs.normal_form y -> let s := print_node [] y in
+  read_cleanup s = s -> Forall (fun l => mentions_qp (print_cl l) = false) (flatten y) -> no_ws_only_lines s ->
+  C14Final.served_text (C14Final.mkStored s None) = Some s.
+Proof. exact FixedPointProofs.reload_serves_stored. Qed.
+Print Assumptions C14_served_after_cache_loss_normal_form.
 
 (* ---------------------------------------------------------------------------------------------------------------
    C14_export.  The whole-collection export (BaseCollection.serialize), for EVERY list of stored objects of the
